@@ -174,7 +174,9 @@ class Session(object):
         except transports.Watchdog as e:
             self.rec.ev('exc', api=api, cls='Watchdog')
             return Outcome('exc', exc=e)
-        except Exception as e:  # noqa
+        except BaseException as e:  # noqa
+            if isinstance(e, (KeyboardInterrupt, SystemExit, GeneratorExit)) or type(e).__name__ == 'Abort':
+                raise
             self.rec.ev('exc', api=api, cls=type(e).__name__, avail=bool(self.device.available), clk=int(self.clock.time()))
             return Outcome('exc', exc=e)
         self.rec.ev('ret', api=api, avail=bool(self.device.available), clk=int(self.clock.time()))
